@@ -223,9 +223,16 @@ Lemma outsider_wins :
   process_arg_paths None outsider_master [s_ "b"] = ([s_ "z.ab"], EOk [(2%nat, s_ "z.ab")]).
 Proof. vm_compute. auto. Qed.
 
-(* F17: a master without any active definition *)
+(* a master without any active definition (formerly a ValueError, repaired in the code by
+   max(scores, default=0)): every argument is refused as unknown, at its first definition *)
 Definition empty_master : obj := mk_scp "" [Def (with_dis (plain_hdr (s_ "a")) true) [uw (s_ "1")] []].
 
-Lemma empty_master_crashes :
-  process_arg_paths None empty_master [s_ "a"] = ([], ECrash (s_ "ValueError")).
-Proof. vm_compute. reflexivity. Qed.
+Lemma empty_master_unknown : forall home master s r,
+  all_definitions master = Ok [] ->
+  process_arg_paths home master (s :: r) = ([], EUnknown s).
+Proof. intros home master s r H. unfold process_arg_paths. rewrite H. reflexivity. Qed.
+
+Lemma empty_master_example :
+  all_definitions empty_master = Ok [] /\
+  process_arg_paths None empty_master [s_ "a"] = ([], EUnknown (s_ "a")).
+Proof. vm_compute. auto. Qed.
